@@ -184,6 +184,64 @@ func runCrashStream(seed int64, n int, out, tier string) *RunReport {
 			}
 		}
 	}
+	// (i') a large batch: interrupted at every begin/commit the operation makes (there must be exactly one commit)
+	for _, size := range []int{1300, 2600} {
+		mk := func() (*Env, []*d.Document) {
+			env, err := newEnv(be)
+			if err != nil {
+				return nil, nil
+			}
+			env.db.CreateCollection("big")
+			env.db.CreateIndex("big", "a")
+			docs := make([]*d.Document, size)
+			for i := range docs {
+				docs[i] = d.NewDocumentOf(scaleDoc(i))
+			}
+			return env, docs
+		}
+		env, docs := mk()
+		if env == nil {
+			continue
+		}
+		before, _ := dumpStore(env.st.inner)
+		env.st.reset()
+		env.st.tracing = true
+		env.db.Insert("big", docs...)
+		trace := append([]string{}, env.st.trace...)
+		after, _ := dumpStore(env.st.inner)
+		env.destroy()
+		for k, what := range trace {
+			if what != "commit" && !(what == "begin" && k > 0) {
+				continue
+			}
+			env, docs := mk()
+			if env == nil {
+				continue
+			}
+			snap, _ := os.MkdirTemp(scratchRoot(), "vh-crash-")
+			env.st.reset()
+			env.st.crashAt = int64(k)
+			env.st.onCrash = func() {
+				copyDir(env.dir, snap)
+				panic(crashSignal{int64(k)})
+			}
+			func() {
+				defer func() { recover() }()
+				env.db.Insert("big", docs...)
+			}()
+			env.st.crashAt = -1
+			got, err := dumpDir(be, snap)
+			evals++
+			if err != nil {
+				f.failf("cannot reopen after a crash at call %d of a %d-document Insert: %v", k, size, err)
+			} else if sg := Tstr(got); sg != Tstr(before) && sg != Tstr(after) {
+				f.failf("a %d-document Insert interrupted at its store call %d (%s) is partially present after reopening: %d keys (before %d, after %d)", size, k, what, len(got.([]T)), len(before.([]T)), len(after.([]T)))
+			}
+			distinct[fmt.Sprintf("bigbatch/%d/%s", size, what)] = true
+			os.RemoveAll(snap)
+			env.destroy()
+		}
+	}
 	// (ii) SIGKILL at random instants
 	kills := 3
 	if tier == "thorough" {
